@@ -726,3 +726,108 @@ fn scalar_sweep(s: &mut Summary) {
                    json!({"scalar": format!("U+{cp:04X}"), "enc": enc}));
     }
 }
+
+// ---------------------------------------------------------------------------
+// Writer.tla replay: the writer follows a script of per-call decisions
+struct ScriptedWriter {
+    script: Vec<i64>,
+    next: usize,
+    out: Vec<u8>,
+    failed: bool,
+    calls_after_fail: usize,
+    flush_fails: bool,
+    flushed: bool,
+}
+impl Write for ScriptedWriter {
+    fn write(&mut self, buf: &[u8]) -> io::Result<usize> {
+        if self.failed {
+            self.calls_after_fail += 1;
+        }
+        let d = if self.next < self.script.len() { self.script[self.next] } else { i64::MAX };
+        self.next += 1;
+        match d {
+            0 => {
+                self.failed = true;
+                Ok(0)
+            }
+            -1 => Err(io::Error::new(ErrorKind::Interrupted, "scripted interrupt")),
+            -2 => {
+                self.failed = true;
+                Err(io::Error::new(ErrorKind::Other, "scripted failure"))
+            }
+            -3 => {
+                self.failed = true;
+                Err(io::Error::new(ErrorKind::PermissionDenied, "scripted failure"))
+            }
+            k => {
+                let n = buf.len().min(k.max(1) as usize);
+                self.out.extend_from_slice(&buf[..n]);
+                Ok(n)
+            }
+        }
+    }
+    fn flush(&mut self) -> io::Result<()> {
+        if self.failed {
+            self.calls_after_fail += 1;
+        }
+        self.flushed = true;
+        if self.flush_fails {
+            self.failed = true;
+            return Err(io::Error::new(ErrorKind::Other, "scripted flush failure"));
+        }
+        Ok(())
+    }
+}
+
+pub fn writer_replay(args: &Args, s: &mut Summary) {
+    let mut rng = Rng::new(args.seed);
+    let maps: Vec<Beatmap> = (0..4)
+        .filter_map(|i| {
+            let mut o = crate::gen::GenOpts::c02();
+            o.mode = Some(i);
+            o.objects = 4;
+            rosu_map::from_str::<Beatmap>(&crate::gen::gen_map(&mut rng, &o)).ok()
+        })
+        .collect();
+    let fulls: Vec<Vec<u8>> = maps.iter().map(|m| m.clone().encode_to_string().map(|t| t.into_bytes()).unwrap_or_default()).collect();
+    let mut n = 0usize;
+    args.for_each_case(|_, c| {
+        s.cases += 1;
+        n += 1;
+        let script: Vec<i64> = geta(&c, "script").iter().map(|x| x.as_i64().unwrap()).collect();
+        let want = gets(&c, "result");
+        let flush_fails = script.last() == Some(&-100);
+        let writes: Vec<i64> = script.iter().cloned().filter(|x| *x != 100 && *x != -100).collect();
+        if writes.iter().any(|x| *x <= 0) || flush_fails {
+            s.nontrivial_key(&c["script"].to_string());
+        }
+        let mi = n % maps.len();
+        let r = guarded(&format!("writer replay {script:?}"), || {
+            let mut w = ScriptedWriter { script: writes.clone(), next: 0, out: vec![], failed: false, calls_after_fail: 0, flush_fails, flushed: false };
+            let mut m = maps[mi].clone();
+            let res = m.encode(&mut w).map_err(|e| e.kind());
+            (res, w.calls_after_fail, w.out, w.flushed)
+        });
+        s.checks += 1;
+        match r {
+            Err(p) => s.mismatch("panic", json!({"script": script, "panic": p})),
+            Ok((res, after, out, flushed)) => {
+                let got = match res {
+                    Ok(()) => "ok".to_string(),
+                    Err(k) => format!("{k:?}"),
+                };
+                if got != want {
+                    s.mismatch(if want == "ok" { "transient-write-condition-surfaced" } else { "write-fault-swallowed-or-altered" },
+                               json!({"script": script, "got": got, "want": want}));
+                } else if after > 0 {
+                    s.mismatch("writes-after-failure", json!({"script": script, "calls": after}));
+                } else if !fulls[mi].starts_with(&out) || (want == "ok" && out != fulls[mi]) {
+                    s.mismatch("output-not-a-prefix-of-the-encoding", json!({"script": script}));
+                } else if want == "ok" && !flushed {
+                    s.mismatch("not-flushed", json!({"script": script}));
+                }
+            }
+        }
+        s.sample(json!({"script": script, "result": want}));
+    });
+}
